@@ -362,6 +362,9 @@ ADD_TEXT["C18"] = (" Round 5: a first part of 'what every other client observes 
 ADD_TEXT["C06"] += (" The configuration can be reloaded in the middle of a history (Ev.reload in the model: bus_connections_reload_policy gives every registered connection a freshly "
                     "built policy; SIGHUP with a rewritten file on the daemon): reloaded_policy_governs, own_denied_after_reload (a RequestName the new rules deny changes nothing, also "
                     "for a connection that already owns the name or waits for it).")
+ADD_TEXT["C14"] += (" The pending-reply list's two hooked edits (bus_connections_expect_reply / cancel_pending_reply, bus_connections_check_reply / cancel_check_pending_reply, "
+                    "which puts the link back at the head) are mirrored too: a cancelled transaction restores the list up to order (pending_cancel_restores, "
+                    "cancelled_transaction_restores_pending).")
 ADD_TEXT["C16"] = (" Round 5: one odd byte (NUL, stray continuation, 0xff, lead byte) at every position of otherwise plain texts of every length up to 48 and around 64/128/256, alone and "
                    "behind a two- or three-byte character, and every UTF-8 verdict is re-asked with the text at every offset 1..7 of its buffer (a validator that looks at a word at a "
                    "time must still see every byte).")
